@@ -301,6 +301,24 @@ impl<T: FloatT> DynView<T> for Decomp<T> {
     }
 }
 
+/// reference for C14's "Tanh reports tanh of its child's output, bit-exactly": the platform's f64::tanh applied by the
+/// harness to the child's answer (a sibling configuration; TLC compares the two answers bit for bit)
+#[derive(Clone)]
+struct RefTanh<T: FloatT> {
+    inner: Dyn<T>,
+}
+impl<T: FloatT> DynView<T> for RefTanh<T> {
+    fn upd(&mut self, v: T) {
+        self.inner.update(v)
+    }
+    fn lst(&self) -> Option<T> {
+        self.inner.last().map(|v| v.tanh())
+    }
+    fn bclone(&self) -> Option<Box<dyn DynView<T>>> {
+        Some(Box::new(self.clone()))
+    }
+}
+
 // ---------------------------------------------------------------------------------------------
 // catalogue: JSON descriptor -> view tree
 
@@ -397,6 +415,7 @@ pub fn build<T: FloatT>(d: &Value) -> Result<Dyn<T>, String> {
         )),
         "Tap" => un!(Tap::<T> { id: d["id"].as_u64().ok_or("Tap id")?, inner: child::<T>(d, 0)? }),
         "Probe" => un!(Probe::<T> { id: d["id"].as_u64().ok_or("Probe id")?, out: None }),
+        "RefTanh" => un!(RefTanh::<T> { inner: child::<T>(d, 0)? }),
         "Decomp" => un!(Decomp::<T> { inner: build(&d["inner"])?, outer: build(&d["outer"])? }),
         other => return Err(format!("unknown kind {other}")),
     })
@@ -737,6 +756,7 @@ fn mem_exp<T: FloatT>(exp: &Value) -> Value {
     let unit = exp.get("unit").and_then(|u| u.as_i64()).unwrap_or(1);
     let marks: Vec<u64> = exp["marks"].as_array().unwrap().iter().map(|x| x.as_u64().unwrap()).collect();
     let period: Vec<i64> = exp["period"].as_array().unwrap().iter().map(|x| x.as_i64().unwrap()).collect();
+    let ramp: i64 = exp.get("ramp").and_then(|r| r.as_i64()).unwrap_or(0);
     // everything the harness itself allocates during the measurement is allocated up front
     let mut raw: Vec<(u64, isize)> = Vec::with_capacity(marks.len() + 1);
     let mut o = exp.clone();
@@ -752,7 +772,9 @@ fn mem_exp<T: FloatT>(exp: &Value) -> Value {
             let mut dead = false;
             let mut mi = 0;
             for step in 1..=last_mark {
-                let x = T::from_ratio(period[((step - 1) as usize) % period.len()], unit);
+                // a periodic pattern, optionally riding on a ramp (so that new all-time highs / lows keep occurring)
+                let cycle = ((step - 1) as usize) / period.len();
+                let x = T::from_ratio(period[((step - 1) as usize) % period.len()] + ramp * cycle as i64, unit);
                 if catch_unwind(AssertUnwindSafe(|| v.update(x))).is_err() {
                     dead = true;
                     break;
